@@ -134,9 +134,12 @@ func (e *Exec) execInstr(f *frame, in ssa.Instruction, h *Heap, g string) (*Heap
 		a := e.addrOf(addr)
 		e.checkNonNil(f, a, &g, in)
 		e.guardedAccess(f, a, h, g, in, true)
-		// storing a pointer to a private object into a non-private object publishes it
+		// storing a pointer to a private object into a non-private object publishes it; into a private one,
+		// it is published together with that one later
 		if len(v.Allocs) > 0 && !e.isPrivateRef(a.Ref) {
 			e.escape(v)
+		} else {
+			e.noteHeld(a.Ref, v)
 		}
 		e.storeAt(h, a, v.T)
 		e.recordShadow(a, v)
@@ -205,6 +208,8 @@ func (e *Exec) execInstr(f *frame, in ssa.Instruction, h *Heap, g string) (*Heap
 		e.guardObl(f, m.Guard, h, g, in, true)
 		if len(v.Allocs) > 0 && !e.isPrivateRef(m.T) {
 			e.escape(v)
+		} else {
+			e.noteHeld(m.T, v)
 		}
 		for _, vi := range e.eng.valInvs(mt.Elem()) {
 			if e.wantClause(vi.c) && e.specDepth == 0 {
@@ -351,6 +356,16 @@ func (e *Exec) execInstr(f *frame, in ssa.Instruction, h *Heap, g string) (*Heap
 		e.drop(fmt.Sprintf("instruction %T", in))
 	}
 	return h, g
+}
+
+// mayBePrivateRef: the reference term is, or may evaluate to (a merge of branches), a still-private allocation.
+func (e *Exec) mayBePrivateRef(ref string) bool {
+	for _, p := range e.priv {
+		if p.ref == ref || strings.Contains(ref, p.ref) {
+			return true
+		}
+	}
+	return false
 }
 
 func (e *Exec) isPrivateRef(ref string) bool {
@@ -512,7 +527,7 @@ func (e *Exec) unop(f *frame, x *ssa.UnOp, h *Heap, g string) (*Heap, string) {
 		}
 		// what is read from an object that existed before cannot be one of this function's still-private
 		// allocations; what is read back from a private object is whatever this function stored there
-		if !e.isPrivateRef(a.Ref) {
+		if !e.mayBePrivateRef(a.Ref) {
 			e.notPrivate(out)
 		}
 		if _, isSl := x.Type().Underlying().(*types.Slice); isSl && e.pure == 0 && out.A == nil {
